@@ -30,6 +30,24 @@ def check(repo: Repo, R) -> None:
     from . import c08
     c08.check(repo, shared.Retag(R, lambda r: "C07.6-failed-visit-never-revisited" if r.startswith("C08.3") else None,
                                  "elaborating the same module again after a failed visit gives another result than the first call (the half-rewritten module passes)"))
+    # the export entry point elaborates whatever it is given, on every call (elaboration itself is what decides
+    # "already done", per module); it never looks at marks left by earlier calls to skip it
+    ft = repo.func(F_EXPORT, "to_proto")
+    els = [c for c in au.calls_in(ft.node) if (dotted(c.func) or "") in ("elaborate", "h.elaborate")]
+    rets = shared.returns_of(ft.node)
+    m_ = pat.match("ProtoExporter(tops=$T, domain=$D).export()", shared.prov(ft.node, rets[0].value, depth=1)) if len(rets) == 1 else None
+    ok = len(els) == 1 and not shared.path_conditions(ft.node, els[0]) and ast.unparse(els[0].args[0]) == ft.node.args.args[0].arg and m_ is not None
+    if ok:
+        talts = {ast.unparse(v) for v, _c in shared.alternatives(ft.node, m_["T"], [])}
+        ok = talts <= {ast.unparse(els[0]), f"[{ast.unparse(els[0])}]"}
+    R.check(ok, "C07.7-export-elaborates-every-call", key_of(ft), ft.site, f"to_proto elaborates its argument unconditionally and exports exactly what elaboration returned: {ok}",
+            why="exporting a list that mixes already elaborated and fresh modules hands un-elaborated modules to the exporter (arrays dropped, bundles refused), depending on which calls came before")
+    c02_ = __import__("hsa.rules.c02", fromlist=["x"])
+    c02_.live_passes(repo, shared.Retag(R, lambda r, k: "C07.7-export-elaborates-every-call" if k.endswith("Elaborator.elaborate") else None,
+                                        "the result of elaborating a design depends on whether an earlier call already touched it"))
+    c18_ = __import__("hsa.rules.c18", fromlist=["x"])
+    c18_.check(repo, shared.Retag(R, lambda r: "C07.3-freeze" if r.startswith("C18.7") else None,
+                                   "a definition that was elaborated accepts additions: parents elaborated earlier and later disagree about its ports"))
     R.floor("C07.1-snapshot-before-flattening", 2)
     R.floor("C07.2-bundled-vs-flattened-io", 2)
     R.floor("C07.3-freeze", 3)
@@ -163,13 +181,20 @@ def io_choice(repo: Repo, R):
         s = ast.unparse(t)
         return True if s == f"{a}._pre_flattening_io is not None" else ("neg" if s == f"{a}._pre_flattening_io is None" else False)
 
+    # the choice may depend on the existence of the snapshot only (not on marks left by other passes or calls)
+    foreign = sorted({x.attr for n in au.walk_no_nested(fr.node) if isinstance(n, ast.If) for x in ast.walk(n.test) if isinstance(x, ast.Attribute) and x.attr != "_pre_flattening_io"})
+    if foreign:
+        R.bad(rule, key_of(fr), fr.site, f"io_for_resolving chooses between the snapshot and the current io by {foreign}, not by whether the snapshot exists",
+              "a child that was flattened under a parent whose elaboration failed later is flattened but unmarked: a new parent's reference to its bundle port looks in the flattened io and fails")
+        tab2 = None
     try:
-        tab2 = fde.decision_table([st for st in fr.node.body if not (isinstance(st, ast.Expr) and isinstance(st.value, ast.Constant))], [("S", has_snapshot), ("X", kind_atom2({"ExternalModuleCall", "PrimitiveCall"})), ("M", kind_atom2({"Module"}))], ["<return>"], norm2)
+        tab2 = None if foreign else fde.decision_table([st for st in fr.node.body if not (isinstance(st, ast.Expr) and isinstance(st.value, ast.Constant))], [("S", has_snapshot), ("X", kind_atom2({"ExternalModuleCall", "PrimitiveCall"})), ("M", kind_atom2({"Module"}))], ["<return>"], norm2)
     except fde.Unknown as e:
         raise AnalysisError(f"idiom-unknown: io_for_resolving: {e}")
-    ok = tab2[(True, False, True)]["<return>"] == "SNAPSHOT"
-    ok2 = tab2[(False, False, True)]["<return>"] == "CURRENT"
-    R.check(ok and ok2, rule, key_of(fr), fr.site, f"io_for_resolving returns the snapshot iff it exists ({ok}), else the current io ({ok2})",
+    ok = tab2 is not None and tab2[(True, False, True)]["<return>"] == "SNAPSHOT"
+    ok2 = tab2 is not None and tab2[(False, False, True)]["<return>"] == "CURRENT"
+    if tab2 is not None:
+      R.check(ok and ok2, rule, key_of(fr), fr.site, f"io_for_resolving returns the snapshot iff it exists ({ok}), else the current io ({ok2})",
             why="a port reference to a bundle-valued port of an already flattened child creates the wrong kind of implicit net")
     # both users of a child's ports during reference / no-connect resolution go through io_for_resolving
     for q in ("ResolvePortRefs.create_source", "ResolvePortRefs.replace_noconn"):
